@@ -1037,7 +1037,7 @@ fn gen_sql(rng: &mut Rng, n_ops: usize, plan: &Plan) -> (String, Vec<String>) {
 
 impl Engine for PagerEngine {
     fn timeout_ms(&self) -> u64 {
-        20_000
+        30_000
     }
 
     fn exec(&mut self, line: &str) -> String {
@@ -1053,7 +1053,7 @@ impl Engine for PagerEngine {
 
     fn gen_cases(&self, rng: &mut Rng, tier: Tier) -> Vec<Case> {
         let mut out = Vec::new();
-        let (n_seq, n_sql, scale) = if tier == Tier::Quick { (100, 44, 1) } else { (1000, 440, 2) };
+        let (n_seq, n_sql, scale) = if tier == Tier::Quick { (100, 77, 1) } else { (1000, 770, 2) };
         let mut r1 = rng.fork("seq");
         for i in 0..n_seq {
             let flavour = match i % 10 {
